@@ -49,8 +49,10 @@ type FuncContract struct {
 	Loops                   map[int]*LoopSpec
 	Split                   *SplitSpec
 	Trusted                 bool // body not verified: the contract is an assumption
-	TrustedPost             bool // body verified for safety/pre/lock/frame only: the ensures clauses are assumptions
-	Pure                    bool // no heap effect at all
+	Constructs              string
+	Refines                 []string // interface types whose method contract this method is checked against
+	TrustedPost             bool     // body verified for safety/pre/lock/frame only: the ensures clauses are assumptions
+	Pure                    bool     // no heap effect at all
 	Inline                  bool
 	Implements              []string
 	Assumed                 bool // comes from the assumed-contract files (dependency)
@@ -90,6 +92,20 @@ type GhostField struct {
 	On   string
 	Sort string
 	Spec *SpecFile
+}
+
+// Abstraction: what a ghost field of the interface-level view means for one concrete type
+// (`abstracts outst(a *IPv4Allocator)[key bv128] = e` or `abstracts poollo(a *IPv4Allocator) = e`).
+type Abstraction struct {
+	Field   string
+	Param   string
+	OnType  string // as written, e.g. *IPv4Allocator
+	IdxVar  string // "" for scalar ghost fields
+	IdxType string
+	Body    SExpr
+	Spec    *SpecFile
+	File    string
+	Line    int
 }
 
 type GhostVar struct {
@@ -143,25 +159,26 @@ type SpecFile struct {
 }
 
 type Contracts struct {
-	Funcs       map[string]*FuncContract
-	Types       map[string]*FuncContract // function-type and interface-method contracts
-	SpecFuncs   map[string]*SpecFunc
-	GhostFields map[string]*GhostField
-	GhostVars   map[string]*GhostVar
-	Lemmas      map[string]*Lemma
-	LemmaOrder  []string
-	Axioms      []*Clause
-	AxiomSpec   map[*Clause]*SpecFile
-	Guards      []*GuardDecl
-	Protects    []*ProtectsDecl
-	Externs     []ExternDefault
-	Files       []string
-	Immutable   map[string]bool      // "TypeKey.field"
-	ImmGlobals  map[string]*SpecFile // "pkg/path.Name" -> declaring file
-	InitEnsures map[string][]*Clause // package path -> clauses established by package initialisation
-	InitSpec    map[string]*SpecFile
-	PluginInv   map[string][]*Clause // package path -> invariants established by setup, assumed by handlers
-	WrittenBy   map[string][]string  // global key -> functions (short names) allowed to write it
+	Funcs        map[string]*FuncContract
+	Types        map[string]*FuncContract // function-type and interface-method contracts
+	SpecFuncs    map[string]*SpecFunc
+	GhostFields  map[string]*GhostField
+	GhostVars    map[string]*GhostVar
+	Lemmas       map[string]*Lemma
+	LemmaOrder   []string
+	Axioms       []*Clause
+	AxiomSpec    map[*Clause]*SpecFile
+	Guards       []*GuardDecl
+	Protects     []*ProtectsDecl
+	Abstractions []*Abstraction
+	Externs      []ExternDefault
+	Files        []string
+	Immutable    map[string]bool      // "TypeKey.field"
+	ImmGlobals   map[string]*SpecFile // "pkg/path.Name" -> declaring file
+	InitEnsures  map[string][]*Clause // package path -> clauses established by package initialisation
+	InitSpec     map[string]*SpecFile
+	PluginInv    map[string][]*Clause // package path -> invariants established by setup, assumed by handlers
+	WrittenBy    map[string][]string  // global key -> functions (short names) allowed to write it
 }
 
 func NewContracts() *Contracts {
@@ -526,6 +543,13 @@ func (cs *Contracts) LoadFile(path, pkgPath string, fromRepo bool) error {
 			cur.Fresh = true
 		case "inline":
 			cur.Inline = true
+		case "constructs":
+			// constructs pkg.Interface : the first result is an object whose interface-level ghost view
+			// (ghost fields with `abstracts` declarations) the postconditions describe
+			cur.Constructs = sf.expandKey(rest)
+		case "refines":
+			// refines pkg.Interface : the interface method contract of the same name must follow from this body
+			cur.Refines = append(cur.Refines, sf.expandKey(rest))
 		case "implements":
 			cur.Implements = append(cur.Implements, sf.expandKey(rest))
 		case "ghost":
@@ -544,6 +568,39 @@ func (cs *Contracts) LoadFile(path, pkgPath string, fromRepo bool) error {
 			default:
 				return errf("ghost field|var")
 			}
+		case "abstracts":
+			// abstracts field(p Type)[idx Sort] = expr   |   abstracts field(p Type) = expr
+			eq := strings.Index(rest, "=")
+			if eq < 0 {
+				return errf("abstracts field(p Type)[idx Sort] = expr")
+			}
+			head := strings.TrimSpace(rest[:eq])
+			open := strings.Index(head, "(")
+			close := strings.Index(head, ")")
+			if open < 0 || close < open {
+				return errf("abstracts field(p Type)[idx Sort] = expr")
+			}
+			pw := strings.Fields(head[open+1 : close])
+			if len(pw) != 2 {
+				return errf("abstracts: parameter must be `name Type`")
+			}
+			ab := &Abstraction{Field: strings.TrimSpace(head[:open]), Param: pw[0], OnType: pw[1], Spec: sf, File: path, Line: line}
+			if tail := strings.TrimSpace(head[close+1:]); tail != "" {
+				if !strings.HasPrefix(tail, "[") || !strings.HasSuffix(tail, "]") {
+					return errf("abstracts: index must be `[name Sort]`")
+				}
+				iw := strings.Fields(tail[1 : len(tail)-1])
+				if len(iw) != 2 {
+					return errf("abstracts: index must be `[name Sort]`")
+				}
+				ab.IdxVar, ab.IdxType = iw[0], iw[1]
+			}
+			ex, err := parseSpecExpr(strings.TrimSpace(rest[eq+1:]))
+			if err != nil {
+				return errf("abstracts: " + err.Error())
+			}
+			ab.Body = ex
+			cs.Abstractions = append(cs.Abstractions, ab)
 		case "axiom":
 			// axiom name: expr
 			i := strings.Index(rest, ":")
